@@ -12,9 +12,43 @@ import labrea.cache
 import labrea.logging
 import labrea.runtime as lrt
 
+import collections
+import collections.abc
+from types import MappingProxyType
+
 from ..core import Property, Result, h64
 from ..rt import Log
 from ..world import global_state_guard
+
+
+class _UserMapping(collections.abc.Mapping):
+    """A user-defined Mapping (not a dict subclass) over a dictionary."""
+
+    def __init__(self, d):
+        self._d = d
+
+    def __getitem__(self, k):
+        return self._d[k]
+
+    def __iter__(self):
+        return iter(self._d)
+
+    def __len__(self):
+        return len(self._d)
+
+
+def _wrapped(over, wrap, res):
+    """The table of overrides as handed to handle(): the dictionary itself or a non-dict Mapping view of it."""
+    if wrap == "proxy":
+        res.bump("derive_from_mappingproxy")
+        return MappingProxyType(over)
+    if wrap == "chain":
+        res.bump("derive_from_chainmap")
+        return collections.ChainMap(over)
+    if wrap == "usermap":
+        res.bump("derive_from_user_mapping")
+        return _UserMapping(over)
+    return over
 
 NTYPES = 3
 
@@ -147,7 +181,10 @@ class C14(Property):
             elif x < 0.52:
                 src = rng.choice(state["rts"] + ["current"]) if state["rts"] else "current"
                 ops.append({"op": "derive", "r": self._new_rt(state), "src": src, "overrides": self._tagmap(rng, state) or {"0": f"h{state['nrt']}_0"},
-                            "form": rng.choice(["pair", "mapping"]), "then_mutate": rng.random() < 0.3})
+                            "form": rng.choice(["pair", "mapping"]), "then_mutate": rng.random() < 0.3,
+                            # the table of overrides as a Mapping that is not a dict (a read-only view of a registry, a ChainMap, a
+                            # user-defined Mapping); chosen from the runtime counter so that the random stream is unchanged
+                            "wrap": (None, "proxy", None, "chain", None, "usermap")[state["nrt"] % 6]})
             elif x < 0.58:
                 ops.append({"op": "builtin", "r": self._new_rt(state), "which": rng.choice(["cache", "logging"])})
             elif x < 0.66:
@@ -398,14 +435,14 @@ class C14(Property):
                             ((ty, h),) = over.items()
                             objs[op["r"]] = lrt.handle(ty, h)
                         else:
-                            objs[op["r"]] = lrt.handle(over)
+                            objs[op["r"]] = lrt.handle(_wrapped(over, op.get("wrap"), res))
                     else:
                         src_holds = holds_of[op["src"]]
                         if op["form"] == "pair" and len(over) == 1:
                             ((ty, h),) = over.items()
                             objs[op["r"]] = objs[op["src"]].handle(ty, h)
                         else:
-                            objs[op["r"]] = objs[op["src"]].handle(over)
+                            objs[op["r"]] = objs[op["src"]].handle(_wrapped(over, op.get("wrap"), res))
                     if op.get("then_mutate"):
                         # the caller goes on using ITS dictionary (a scratch mapping reused for the next derivation): the runtime
                         # derived from it took what it needed at that moment
